@@ -29,25 +29,25 @@ let parse_cfg (t : toks) : M.bank_cfg =
     bc_init_limit = lim; bc_max_age = age; bc_max_conf = conf; bc_oracle_key = ok }
 
 let dump_ir (c : M.ir_config) : string =
-  String.concat " "
+  Stdlib.String.concat " "
     ([zs c.M.ir_curve_type; zs c.M.ir_optimal; zs c.M.ir_plateau; zs c.M.ir_max; zs c.M.ir_ins_fixed;
       zs c.M.ir_ins_rate; zs c.M.ir_grp_fixed; zs c.M.ir_grp_rate; zs c.M.ir_zero; zs c.M.ir_hundred]
      @ Stdlib.List.concat_map (fun p -> [zs p.M.rp_util; zs p.M.rp_rate]) c.M.ir_points)
 
 let dump_cfg (c : M.bank_cfg) : string =
-  String.concat " "
+  Stdlib.String.concat " "
     [zs c.M.bc_awi; zs c.M.bc_awm; zs c.M.bc_lwi; zs c.M.bc_lwm; zs c.M.bc_deposit_limit; zs c.M.bc_borrow_limit;
      dump_ir c.M.bc_ir; zs c.M.bc_orig_fee; zs c.M.bc_op_state; zs c.M.bc_risk_tier; zs c.M.bc_asset_tag;
      zs c.M.bc_init_limit; zs c.M.bc_max_age; zs c.M.bc_max_conf; zs c.M.bc_oracle_key]
 
 let dump_entries (l : M.emode_entry list) : string =
-  String.concat " " (Stdlib.List.map (fun e -> String.concat " " [zs e.M.ee_tag; zs e.M.ee_flags; zs e.M.ee_init; zs e.M.ee_maint]) l)
+  Stdlib.String.concat " " (Stdlib.List.map (fun e -> Stdlib.String.concat " " [zs e.M.ee_tag; zs e.M.ee_flags; zs e.M.ee_init; zs e.M.ee_maint]) l)
 
 let dump_emode (e : M.emode_settings) : string =
-  String.concat " " [zs e.M.es_tag; zs e.M.es_timestamp; zs e.M.es_flags; dump_entries e.M.es_entries]
+  Stdlib.String.concat " " [zs e.M.es_tag; zs e.M.es_timestamp; zs e.M.es_flags; dump_entries e.M.es_entries]
 
 let dump_bank (b : M.cbank) : string =
-  String.concat " " [dump_cfg b.M.cb_cfg; zs b.M.cb_flags; dump_emode b.M.cb_emode]
+  Stdlib.String.concat " " [dump_cfg b.M.cb_cfg; zs b.M.cb_flags; dump_emode b.M.cb_emode]
 
 let opt (t : toks) (f : toks -> 'a) : 'a option =
   match next t with "N" -> None | "S" -> Some (f t) | x -> failwith ("bad option token " ^ x)
@@ -81,7 +81,7 @@ let parse_staked (t : toks) : M.staked_settings =
     ss_risk_tier = tier }
 
 let dump_staked (s : M.staked_settings) : string =
-  String.concat " " [zs s.M.ss_oracle; zs s.M.ss_awi; zs s.M.ss_awm; zs s.M.ss_deposit_limit; zs s.M.ss_init_limit;
+  Stdlib.String.concat " " [zs s.M.ss_oracle; zs s.M.ss_awi; zs s.M.ss_awm; zs s.M.ss_deposit_limit; zs s.M.ss_init_limit;
                      zs s.M.ss_max_age; zs s.M.ss_risk_tier]
 
 let ok_s (r : unit M.res) : string = res_s (fun () -> "OK") r
@@ -235,6 +235,6 @@ let suite_cfgsim (line : string) : string =
       | x -> failwith ("unknown step " ^ x) in
     out := s :: !out
   done;
-  String.concat " | " (Stdlib.List.rev !out)
+  Stdlib.String.concat " | " (Stdlib.List.rev !out)
 
 let () = register "cfgsim" suite_cfgsim
